@@ -50,6 +50,11 @@ class _ObjClasses(dict):
             self["SpecifierSet"] = (SP.SpecifierSet, ["_specs", "_prereleases"])
             from packaging import requirements as RQ
             self["Requirement"] = (RQ.Requirement, ["name", "url", "extras", "specifier", "marker"])
+            # --- x6
+            self["Metadata"] = (MD.Metadata, [])          # fields: the instance dict, see enc_val
+            from packaging import _elffile as EF
+            self["ELFFile"] = (EF.ELFFile, ["_f", "capacity", "encoding", "_p_fmt", "_p_idx", "machine", "_e_phoff", "flags",
+                                            "_e_phentsize", "_e_phnum"])
 
     def __contains__(self, k):
         self._load()
@@ -76,6 +81,14 @@ def enc_val(v) -> str:
         return "i" + str(v)
     if isinstance(v, str):
         return "s" + core.enc(v)
+    if isinstance(v, bytes):                                                   # x6
+        return "Obytes{v=L[" + ",".join("i" + str(b) for b in v) + "]}"
+    if type(v).__name__ == "BytesIO":                                          # x6: contents and position
+        return "OBytesIO{data=" + enc_val(v.getvalue()) + ",pos=i" + str(v.tell()) + "}"
+    if type(v).__name__ == "Metadata" and type(v).__module__ == "packaging.metadata":   # x6: the instance dict, in order
+        return "OMetadata{" + ",".join(f"{k}={enc_val(x)}" for k, x in vars(v).items()) + "}"
+    if isinstance(v, WireObj):                                                 # x6
+        return "O" + v.cls + "{" + ",".join(f"{k}={enc_val(x)}" for k, x in v.fields.items()) + "}"
     if isinstance(v, Env):
         return "L[" + ",".join("U[" + enc_val(k) + "," + enc_val(x) + "]" for k, x in v) + "]"
     if isinstance(v, dict):                                                    # x3
@@ -165,6 +178,15 @@ class _P:
             self.i += 1
             if name in ("set", "frozenset"):
                 return (set if name == "set" else frozenset)(fields["items"])
+            if name == "bytes":                                          # x6
+                return bytes(fields["v"])
+            if name == "BytesIO":
+                import io
+                o = io.BytesIO(fields["data"])
+                o.seek(fields["pos"])
+                return o
+            if name in ("module", "callable"):                          # x6: known by class name and fields only
+                return WireObj(name, fields)
             cls, _ = _OBJ_CLASSES[name]
             if issubclass(cls, tuple):
                 return cls(**fields)
@@ -1533,6 +1555,381 @@ SETTER_FUNCS = {"SpecifierSet.prereleases__set"}
 SYM_HASH_FUNCS.update({"Specifier.__hash__": _SP, "SpecifierSet.__hash__": _SP, "Requirement.__hash__": _RQ})
 
 
+
+# ------------------------------------------------------------------------------------------------ x6: platform remainder
+# The environment table of these functions is *derived from a probe description* (the JSON dicts of `tagsglue.probes`,
+# as in C16): the generator runs the real probes under `probes(d)` once to fill the table the translated function reads
+# (`_get_musl_version(exe)`, `_parse_elf(exe)`, the glibc strings, `import _manylinux`, `platform.*`, `sysconfig.get_platform`)
+# and ships `d` itself under the key `__probes__`; `real` re-enters `probes(d)` around the real call.
+class WireObj:
+    """an object known only by class name and fields (`module`, `callable`): `O<cls>{k=v,…}`"""
+    def __init__(self, cls, fields):
+        self.cls, self.fields = cls, fields
+
+
+X6_EXE = "/x6/python"
+X6_ARCH_LISTS = [["x86_64"], ["x86_64"], ["i686"], ["aarch64"], ["armv8l", "armv7l"], ["armv7l"], ["ppc64le"], ["s390x"], ["riscv64"],
+                 ["mips"], [], ["x86_64", "aarch64"], ["i686", "x86_64"], ["X86_64"], ["x86_64", "x86_64"]]
+X6_GLIBC = [(2, 4), (2, 5), (2, 6), (2, 12), (2, 16), (2, 17), (2, 18), (2, 31), (2, 50), (2, 51), (3, 0), (3, 2), (4, 1), (2, 0), (1, 5)]
+X6_MUSL_OUT = ["musl libc (x86_64)\nVersion 1.2.2\nDynamic Program Loader\nUsage: /lib/ld-musl-x86_64.so.1 [options] [--] pathname",
+               "musl libc (aarch64)\nVersion 1.1.24\nDynamic Program Loader", "musl libc\nVersion 1.2.5-git-3\n",
+               "\n\n  musl libc (i386)  \r\n\tVersion 2.0.10\r\n", "musl\x0bVersion 1.0", "musl\nVersion 1.", "musl\nversion 1.2.2",
+               "musl libc\n\nDynamic\nVersion 1.2.2", "glibc\nVersion 1.2.2", "musl libc (x86_64)", "", "mus\nVersion 1.2",
+               "musl libc\nVersion 1.2.2.3", "musl libc\n Version 10.200", "musl\x1cVersion 3.4\x1d", "musl\x1fVersion 3.4",
+               "musllibc\nVersion 01.02", "musl\nVersion 1.x", "musl\nVersion  1.2", "xmusl\nVersion 1.2", "musl\nVersion 1.2\nVersion 9.9",
+               "musl\r\nVersion 1.5\r\n", "musl\rVersion 1.6", "\r\n\r\nmusl\n\n\nVersion 7.8", "musl\n\x1eVersion 1.9", "   \nmusl\nVersion 2.3  ",
+               "musl\x0cVersion 0.0", "musl", "musl\n", "Version 1.2\nmusl"]
+
+
+def _x6_policy(rng):
+    r = rng.random()
+    if r < 0.35:
+        return None
+    tri = lambda: rng.choice([None, True, False, False])
+    if r < 0.7:
+        rules = []
+        for _ in range(rng.choice([0, 1, 2, 4])):
+            M, m = rng.choice(X6_GLIBC + [(2, 5), (2, 12), (2, 17), (2, 17)])
+            rules.append([M, m, rng.choice(["x86_64", "i686", "aarch64", "armv7l"]), tri()])
+        pol = {"kind": "func", "default": rng.choice([None, None, True, False]), "rules": rules}
+        if rng.random() < 0.4:
+            pol.update({"m1": tri(), "m2010": tri(), "m2014": tri()})
+        return pol
+    return {"kind": "legacy", "m1": tri(), "m2010": tri(), "m2014": tri()}
+
+
+def _x6_lcfg(rng, archs=None):
+    from gen import elfgen as E
+    G = rng.choice(X6_GLIBC)
+    r = rng.random()
+    if r < 0.06:
+        exe = None
+    elif archs and r < 0.7:
+        want = ("armhf" if "armv7l" in archs else "i686" if "i686" in archs else "x86_64")
+        exe = E.build(E.exe_for(want))
+    elif r < 0.9:
+        exe = E.build(E.exe_for(rng.choice(["x86_64", "i686", "armhf", "armhf2", "armel", "arm-eabi4", "arm-be", "aarch64", "i386-be"])))
+    else:
+        exe = E.build(E.gen_desc(rng, huge=False))
+    ld = rng.choice(X6_MUSL_OUT)
+    if rng.random() < 0.4:
+        base = E.exe_for(rng.choice(["x86_64", "aarch64", "i686", "armhf"]))
+        interp = rng.choice(E.INTERPS).encode()
+        if rng.random() < 0.6:
+            interp = rng.choice(E.INTERPS[:2]).encode()
+            ld = f"musl libc (x86_64)\nVersion {rng.choice([0, 1, 1, 2])}.{rng.randrange(0, 12)}" + rng.choice(["", ".2", "-git"]) + "\nLoader\n"
+        exe = E.build(E.with_interp(base, interp))
+    k = rng.random()
+    confstr = (f"glibc {G[0]}.{G[1]}" if k < 0.75 else
+               rng.choice([None, "raise:OSError", f"glibc{G[0]}.{G[1]}", f"glibc {G[0]}.{G[1]} extra", f"  glibc   {G[0]}.{G[1]}  ", "glibc junk",
+                           f"glibc {G[0]}.{G[1]}-2014.11", "", f"glibc {G[0]}"]))
+    return {"exe_hex": None if exe is None else exe.hex(), "confstr": confstr,
+            "ctypes_version": rng.choice([None, None, None, "2.28", "2.17", "", "junk"]), "policy": _x6_policy(rng), "ld_stderr": ld}
+
+
+def _x6_module_value(pol):
+    if pol is None:
+        return Raise("ImportError")
+    fields = {}
+    if pol["kind"] == "func":
+        rows = [((r[0], r[1], r[2]), r[3]) for r in pol["rules"]]
+        fields["manylinux_compatible"] = WireObj("callable", {"table": rows, "default": pol["default"]})
+    for k, attr in (("m1", "manylinux1_compatible"), ("m2010", "manylinux2010_compatible"), ("m2014", "manylinux2014_compatible")):
+        if pol.get(k) is not None:
+            fields[attr] = pol[k]
+    return WireObj("module", fields)
+
+
+def _x6_stdout_key():
+    """the environment key of `subprocess.run(…).stdout` in `mac_platforms`: the source text of that expression"""
+    import ast, inspect, textwrap
+    from packaging import tags as T
+    tree = ast.parse(textwrap.dedent(inspect.getsource(T.mac_platforms)))
+    for n in ast.walk(tree):
+        if isinstance(n, ast.Attribute) and n.attr == "stdout" and isinstance(n.value, ast.Call) \
+                and ast.unparse(n.value.func) == "subprocess.run":
+            return ast.unparse(n)
+    return "subprocess.run().stdout"
+
+
+def _x6_env(d, is32=False):
+    """the environment table for probe description `d`: the answers of the real probes under `probes(d)`"""
+    import json
+    import sys as real_sys
+    import tagsglue
+    from packaging import _manylinux as ML, _musllinux as MU
+    rows = []
+    with tagsglue.probes(d):
+        exe = real_sys.executable
+        if "exe_hex" in d:
+            rows.append(("sys.executable", X6_EXE))
+            rows.append(("_get_musl_version", [((X6_EXE,), MU._get_musl_version(exe))]))
+            with ML._parse_elf(exe) as f:
+                elf = None if f is None else WireObj("ELFFile", {k: int(getattr(f, k)) for k in ("capacity", "encoding", "machine", "flags")})
+            rows.append(("_parse_elf", [((X6_EXE,), elf)]))
+        if "confstr" in d:
+            rows.append(("_glibc_version_string_confstr", [((), ML._glibc_version_string_confstr())]))
+            rows.append(("_glibc_version_string_ctypes", [((), ML._glibc_version_string_ctypes())]))
+        if "policy" in d:
+            rows.append(("import _manylinux", _x6_module_value(d["policy"])))
+        import platform, sysconfig
+        if "system" in d:
+            rows.append(("platform.system", [((), platform.system())]))
+        if "get_platform" in d:
+            rows.append(("sysconfig.get_platform", [((), sysconfig.get_platform())]))
+        if "mac_ver" in d:
+            rows.append(("platform.mac_ver", [((), tuple(platform.mac_ver()))]))
+            rows.append((_x6_stdout_key(), d.get("mac_ver_compat0", "")))
+        if "ios" in d:
+            rows.append(("platform.ios_ver", [((), tuple(platform.ios_ver()))]))
+            rows.append(("sys.implementation._multiarch", real_sys.implementation._multiarch))
+    rows.append(("_32_BIT_INTERPRETER", is32))
+    rows.append(("__probes__", json.dumps(d, sort_keys=True)))
+    return Env(rows)
+
+
+def _x6_apply(env):
+    """enter `probes(d)` for the description shipped in the table (and the 32-bit flag, which the library froze into default
+    arguments); returns the undo function"""
+    import json
+    import tagsglue
+    from packaging import tags as T
+    d = dict(env)
+    cm = tagsglue.probes(json.loads(d["__probes__"]))
+    cm.__enter__()
+    saved = (T._mac_arch.__defaults__, T._linux_platforms.__defaults__)
+    T._mac_arch.__defaults__ = (bool(d["_32_BIT_INTERPRETER"]),)
+    T._linux_platforms.__defaults__ = (bool(d["_32_BIT_INTERPRETER"]),)
+
+    def undo():
+        T._mac_arch.__defaults__, T._linux_platforms.__defaults__ = saved
+        cm.__exit__(None, None, None)
+    return undo
+
+
+def _g_parse_musl(rng):
+    s = rng.choice(X6_MUSL_OUT)
+    if rng.random() < 0.25:
+        i = rng.randrange(len(s) + 1)
+        s = s[:i] + rng.choice(["\n", "\r\n", "\r", " ", "\x1c", "\x0b", "Version 3.1", "musl", ".", "9"]) + s[i:]
+    return [s]
+
+
+def _g_musl_tags(rng):
+    archs = rng.choice(X6_ARCH_LISTS)
+    return [_x6_env(_x6_lcfg(rng, archs)), list(archs)]
+
+
+def _g_is_compatible(rng):
+    d = _x6_lcfg(rng)
+    pol = d["policy"]
+    v = rng.choice(X6_GLIBC + [(2, 5), (2, 12), (2, 17)] * 3)
+    arch = rng.choice(["x86_64", "i686", "aarch64", "armv7l"])
+    if pol and pol.get("rules") and rng.random() < 0.6:
+        r = rng.choice(pol["rules"])
+        v, arch = (r[0], r[1]), r[2]
+    return [_x6_env(d), arch, tuple(v)]
+
+
+def _g_many_tags(rng):
+    archs = rng.choice(X6_ARCH_LISTS)
+    return [_x6_env(_x6_lcfg(rng, archs)), list(archs)]
+
+
+X6_GET_PLATFORMS = ["linux-x86_64", "linux-aarch64", "linux-armv7l", "linux-i686", "linux-ppc64le", "linux-mips", "linux-armv8l",
+                    "macosx-10.9-x86_64", "win-amd64", "linux_x86_64", "linux", "linux-", "linux-s390x", "Linux-x86_64", "linux-x86.64"]
+
+
+def _g_linux_platforms(rng):
+    d = _x6_lcfg(rng)
+    d["get_platform"] = rng.choice(X6_GET_PLATFORMS)
+    return [_x6_env(d), rng.random() < 0.4]
+
+
+X6_MAC_VERSIONS = [(10, 0), (10, 3), (10, 4), (10, 5), (10, 6), (10, 9), (10, 15), (10, 16), (10, 17), (11, 0), (11, 3), (12, 0), (13, 1),
+                   (14, 5), (20, 1), (9, 5), (0, 0)]
+X6_MAC_ARCHS = ["x86_64", "arm64", "i386", "ppc64", "ppc", "intel", "universal2", "riscv", ""]
+
+
+def _x6_mac_d(rng):
+    v = rng.choice(X6_MAC_VERSIONS)
+    vs = rng.choice([f"{v[0]}.{v[1]}", f"{v[0]}.{v[1]}.3", f"{v[0]}.{v[1]}", "10.16", "10.16.1", f"{v[0]}", "", "x.y", "11.x"])
+    c = rng.choice(X6_MAC_VERSIONS)
+    return {"mac_ver": [vs, rng.choice(X6_MAC_ARCHS)], "mac_ver_compat0": rng.choice([f"{c[0]}.{c[1]}\n", f"{c[0]}.{c[1]}.1\n", "11.6\n", "", "junk"])}
+
+
+def _g_mac_platforms(rng):
+    version = rng.choice([None, None] + X6_MAC_VERSIONS + [(10,), (11,), (10, 5, 1)])
+    return [_x6_env(_x6_mac_d(rng), is32=rng.random() < 0.3), version, rng.choice([None, None] + X6_MAC_ARCHS)]
+
+
+X6_IOS_VERSIONS = [(11, 4), (12, 0), (12, 1), (12, 9), (13, 0), (13, 4), (14, 8), (15, 0), (17, 10), (0, 0), (12,), (13, 2, 1), ()]
+X6_MULTIARCH = ["arm64-iphoneos", "arm64-iphonesimulator", "x86_64-iphonesimulator", "arm64_iphoneos", "a-b-c", ""]
+
+
+def _x6_ios_d(rng):
+    return {"ios": [rng.choice(["12.0", "13.4", "17.10.1", "11.4", "15", "", "x", "12.x"]), rng.choice(X6_MULTIARCH)]}
+
+
+def _g_ios_platforms(rng):
+    return [_x6_env(_x6_ios_d(rng)), rng.choice([None, None] + X6_IOS_VERSIONS), rng.choice([None, None] + X6_MULTIARCH)]
+
+
+def _g_platform_tags(rng):
+    system = rng.choice(["Darwin", "iOS", "Linux", "Linux", "Windows", "FreeBSD", "", "linux"])
+    d = _x6_lcfg(rng)
+    d.update(_x6_mac_d(rng))
+    d.update(_x6_ios_d(rng))
+    d["system"] = system
+    d["get_platform"] = rng.choice(X6_GET_PLATFORMS)
+    return [_x6_env(d, is32=rng.random() < 0.3)]
+
+
+def _g_have_abi(rng):
+    archs = rng.choice(X6_ARCH_LISTS)
+    return [_x6_env(_x6_lcfg(rng, archs)), X6_EXE, list(archs)]
+
+
+def _g_env_lcfg(rng):
+    return [_x6_env(_x6_lcfg(rng))]
+
+
+def _x6_elf_bytes(rng):
+    from gen import elfgen as E
+    r = rng.random()
+    if r < 0.45:
+        d = E.exe_for(rng.choice(["x86_64", "i686", "armhf", "aarch64", "s390x", "i386-be", "arm-be"]))
+        if rng.random() < 0.8:
+            d = E.with_interp(d, (rng.choice(E.INTERPS) + rng.choice(["", "\0", "\0\0"])).encode())
+    else:
+        d = E.gen_desc(rng, huge=rng.random() < 0.3)
+    b = E.build(d, limit=2048)
+    k = rng.random()
+    if k < 0.12:
+        b = b[:rng.randrange(0, min(len(b), 70) + 1)]                     # truncated headers
+    elif k < 0.2 and b:
+        i = rng.randrange(min(len(b), 8))
+        b = b[:i] + bytes([rng.choice([0, 1, 2, 3, 127, 255])]) + b[i + 1:]   # damaged identification
+    return b
+
+
+def _g_elf_init(rng):
+    import io
+    from packaging import _elffile as EF
+    return [object.__new__(EF.ELFFile), io.BytesIO(_x6_elf_bytes(rng))]
+
+
+def _g_elf_interpreter(rng):
+    import io
+    from packaging import _elffile as EF
+    for _ in range(50):
+        b = _x6_elf_bytes(rng)
+        try:
+            o = EF.ELFFile(io.BytesIO(b))
+        except ValueError:
+            continue
+        try:
+            r = o.interpreter
+        except ValueError:
+            r = None
+        if r is None or r.isascii():                 # the run-time decodes ASCII paths only
+            return [EF.ELFFile(io.BytesIO(b))]
+    from gen import elfgen as E
+    return [EF.ELFFile(io.BytesIO(E.build(E.exe_for("x86_64"))))]
+
+
+def _g_validator_ctype(rng):
+    """`_process_description_content_type`: the `EmailMessage` answers are tabulated from the standard library itself"""
+    import email.message
+    from packaging import metadata as MD
+    from gen import metadata as GM
+    good, bad, esc = GM.POOLS["description_content_type"]
+    extra = ["text/plain", "TEXT/Markdown; variant=CommonMark", "text/markdown; variant=Other", "text/x-rst; charset=latin-1",
+             "text/plain; charset=UTF-8", "text/html", "", "a\nb", "text/plain; a*", "text/markdown; charset=UTF-8; variant=GFM",
+             "text/plain; variant=x", "text/markdown;variant=gfm", "Text/Plain", "text/plain; charset=utf-8"]
+    v = rng.choice((good or []) + (bad or []) + extra * 2)
+    if not isinstance(v, str) or any(0xD800 <= ord(c) <= 0xDFFF for c in v):
+        v = "text/plain"
+    m = email.message.EmailMessage()
+    try:
+        m["content-type"] = v
+        ans = (m.get_content_type().lower(), {k: x for k, x in dict(m["content-type"].params).items() if k in ("charset", "variant")})
+    except Exception as e:
+        ans = Raise(type(e).__name__)
+    oracle = Oracle([("EmailMessage.set_content_type", (v,), ans), ("str.lower", (v,), v.lower())])
+    return [oracle, MD.Metadata.__dict__["description_content_type"], v]
+
+
+def _g_validator_get(rng):
+    """`_Validator.__get__(self, instance, owner)`: a `Metadata` instance with a raw dict (and sometimes cached attributes), a
+    validator of the class; the oracle table is recorded while the real descriptor runs on a copy"""
+    import copy
+    import email.message
+    from packaging import metadata as MD
+    from gen import metadata as GM
+    validators = [k for k, v in vars(MD.Metadata).items() if isinstance(v, MD._Validator)]
+    raw = {k: v for k, v in GM.raw_dict(rng)[0].items() if isinstance(k, str)}
+    def clean(v):
+        if isinstance(v, str):
+            return "".join(c for c in v if not 0xD800 <= ord(c) <= 0xDFFF)
+        if isinstance(v, list):
+            return [clean(x) for x in v]
+        if isinstance(v, dict):
+            return {clean(a): clean(b) for a, b in v.items()}
+        return v
+    raw = {k: clean(v) for k, v in raw.items()}
+    present = [k for k in raw if k in validators]
+    key = rng.choice(present) if present and rng.random() < 0.75 else rng.choice(validators)
+    ins = object.__new__(MD.Metadata)
+    ins._raw = raw
+    if rng.random() < 0.2:                       # attributes read earlier sit in the instance dict
+        for k in rng.sample(validators, 2):
+            if k != key and k in raw and isinstance(raw[k], str):
+                ins.__dict__[k] = raw.pop(k)
+    self_ = vars(MD.Metadata)[key]
+    f = _resolve("packaging.metadata", "_Validator.__get__")
+    oracle = _record_dotted("packaging.metadata", METADATA_ORACLES, f, [self_, copy.deepcopy(ins), None])
+    v = raw.get(key)
+    if key == "description_content_type" and isinstance(v, str):
+        m = email.message.EmailMessage()
+        try:
+            m["content-type"] = v
+            ans = (m.get_content_type().lower(), {k: x for k, x in dict(m["content-type"].params).items() if k in ("charset", "variant")})
+        except Exception as e:
+            ans = Raise(type(e).__name__)
+        oracle.append(("EmailMessage.set_content_type", (v,), ans))
+    for x in ([v] if isinstance(v, str) else v if isinstance(v, list) else []):       # `str.lower` cannot be intercepted
+        if isinstance(x, str):
+            oracle.append(("str.lower", (x,), x.lower()))
+    return [oracle, self_, ins, None]
+
+
+_ML, _MU = "packaging._manylinux", "packaging._musllinux"
+FUNCS.update({
+    "_parse_musl_version": (_MU, "_parse_musl_version", _g_parse_musl),
+    "_musllinux.platform_tags": (_MU, "platform_tags", _g_musl_tags),
+    "_is_compatible": (_ML, "_is_compatible", _g_is_compatible),
+    "_manylinux.platform_tags": (_ML, "platform_tags", _g_many_tags),
+    "_have_compatible_abi": (_ML, "_have_compatible_abi", _g_have_abi),
+    "_get_glibc_version": (_ML, "_get_glibc_version.__wrapped__", _g_env_lcfg),
+    "_linux_platforms": ("packaging.tags", "_linux_platforms", _g_linux_platforms),
+    "mac_platforms": ("packaging.tags", "mac_platforms", _g_mac_platforms),
+    "ios_platforms": ("packaging.tags", "ios_platforms", _g_ios_platforms),
+    "tags.platform_tags": ("packaging.tags", "platform_tags", _g_platform_tags),
+    "ELFFile.__init__": ("packaging._elffile", "ELFFile.__init__", _g_elf_init),
+    "ELFFile.interpreter": ("packaging._elffile", "ELFFile.interpreter", _g_elf_interpreter),
+})
+FUNCS["_Validator._process_description_content_type"] = ("packaging.metadata", "_Validator._process_description_content_type",
+                                                           _g_validator_ctype)
+EXT_FUNCS |= {"_Validator._process_description_content_type"}
+FUNCS["_Validator.__get__"] = ("packaging.metadata", "_Validator.__get__", _g_validator_get)
+EXT_FUNCS |= {"_Validator.__get__"}
+# functions that update one argument in place: the answer is the result together with that argument afterwards
+X6_INOUT = {"_Validator.__get__": 1}
+X6_ENV_FUNCS = {"_musllinux.platform_tags", "_is_compatible", "_manylinux.platform_tags", "_have_compatible_abi", "_get_glibc_version",
+                "_linux_platforms", "mac_platforms", "ios_platforms", "tags.platform_tags"}
+
+
 class _Src:
     def cases(self, rng, n, names):
         """n `src.call` cases spread over the named functions"""
@@ -1555,6 +1952,10 @@ class _Src:
         undo = None
         if name in ORDER_FUNCS:                                           # x5: the iteration order of frozenset fields
             vals = _apply_order(vals.pop(0), vals)
+        if name in X6_ENV_FUNCS:                                          # x6: probes of the platform code
+            undo = _x6_apply(vals.pop(0))
+            import sys as _sys
+            vals = [_sys.executable if isinstance(v, str) and v == X6_EXE else v for v in vals]   # the scratch file of `probes`
         if name in ENV_FUNCS:
             env = vals.pop(0)
             undo = _apply_env([(k, (list(v) if k == "platform_tags" else v)) for k, v in env])
@@ -1580,6 +1981,8 @@ class _Src:
                 r = f(*pos, **kw)
                 if name in STATE_FUNCS:
                     return "ok " + enc_val((r, pos[0]))
+                if name in X6_INOUT:                         # x6
+                    return "ok " + enc_val((r, pos[X6_INOUT[name]]))
                 if name.endswith(".__init__") or name in SETTER_FUNCS:
                     r = pos[0]                     # x3: the translated `__init__` hands back the initialised object
                 with _transparent(name):           # x5
